@@ -1043,6 +1043,19 @@ class Sim:
                     ma.ann["res_id"] = list(ma.ann["res_id"])
                     ma.ann["res_id"][-1] = ma.ann["res_id"][-1] + 1
                     variants.append(("one annotation value", ma))
+                if m.kind == "stack":
+                    # another number of models: the last model once more, the last model dropped, no model at all
+                    md = m.copy()
+                    md.coord = np.concatenate([m.coord, m.coord[-1:]]) if m.m else np.zeros((1, m.n, 3), dtype=np.float32)
+                    if m.box is not None:
+                        md.box = np.concatenate([m.box, m.box[-1:]]) if m.m else np.stack([np.eye(3, dtype=np.float32)])
+                    variants.append(("one more model", md))
+                    if m.m >= 1:
+                        me = m.copy()
+                        me.coord = m.coord[:-1]
+                        if m.box is not None:
+                            me.box = m.box[:-1]
+                        variants.append(("one model fewer", me))
                 mx = m.copy()
                 mx.ann["uid2"] = [0] * m.n
                 variants.append(("one more annotation category", mx))
